@@ -544,7 +544,8 @@ func toInt(v any) (int, bool, bool) {
 
 		return int(i), true, true
 	case float32:
-		if v > math.MaxInt || v < math.MinInt {
+		// math.MaxInt converted to a float is 2^63, which is out of range.
+		if v >= math.MaxInt || v < math.MinInt {
 			return 0, true, false
 		}
 
@@ -554,7 +555,8 @@ func toInt(v any) (int, bool, bool) {
 
 		return int(v), true, true
 	case float64:
-		if v > math.MaxInt || v < math.MinInt {
+		// math.MaxInt converted to a float is 2^63, which is out of range.
+		if v >= math.MaxInt || v < math.MinInt {
 			return 0, true, false
 		}
 
